@@ -147,32 +147,51 @@ fn console_vxw_c11() {
         }
     }
 
-    // ---- a history with several callers and endpoints: counts accumulate per caller/destination
+    // ---- a history with several callers and endpoints: counts accumulate per user / process / command line / destination
     {
         n += 1;
         h.set_rules(&|| Some(vx_rules("audit", "deny", 3, "x")));
         h.clear_summary();
-        let plan: [(usize, usize); 6] = [(0, 2), (2, 1), (0, 1), (3, 2), (1, 1), (2, 2)]; // (index into callers, how many)
-        let mut want: std::collections::BTreeMap<usize, u64> = std::collections::BTreeMap::new();
-        for (ci, cnt) in plan.iter() {
-            let (ip, port, elevated) = callers[*ci];
+        let alice = vx_claims(false);
+        let mut alice_other_cmd = vx_claims(false);
+        alice_other_cmd.processCmdLine = "tool --y".to_string();
+        let mut alice_other_exe = vx_claims(false);
+        alice_other_exe.processFullPath = std::path::PathBuf::from("/opt/other/tool");
+        let mut bob = vx_claims(false);
+        bob.userName = "bob".to_string();
+        bob.userId = 1001;
+        let root = vx_claims(true);
+        const IMDS: (&str, u16) = ("169.254.169.254", 80);
+        const WS: (&str, u16) = ("168.63.129.16", 80);
+        const GA: (&str, u16) = ("168.63.129.16", 32526);
+        // (who, caller, destination, how many in a row)
+        let plan: Vec<(&str, &Claims, (&str, u16), u64)> = vec![
+            ("alice", &alice, IMDS, 2), ("root->WireServer", &root, WS, 1), ("alice, other command line", &alice_other_cmd, IMDS, 1), ("alice", &alice, IMDS, 1),
+            ("root->HostGAPlugin", &root, GA, 2), ("bob", &bob, IMDS, 1), ("root->IMDS", &root, IMDS, 1), ("alice, other executable", &alice_other_exe, IMDS, 2),
+            ("root->WireServer", &root, WS, 2), ("alice, other command line", &alice_other_cmd, IMDS, 2),
+        ];
+        let mut want: std::collections::BTreeMap<&str, (u64, &Claims, (&str, u16))> = std::collections::BTreeMap::new();
+        let mut all = 0u64;
+        for (who, c, dest, cnt) in plan.iter() {
             for _ in 0..*cnt {
-                let _ = h.one(&h.ps, &Attribution::full(elevated, ip, port), vx_request_bytes("GET", "/machine?comp=goalstate", &hdrs(ip), &ReqBody::None), false);
-                *want.entry(*ci).or_insert(0) += 1;
+                let attr = Attribution { claims: Some((*c).clone()), destination: Some((dest.0.parse().unwrap(), dest.1)), upstream: true, real_new: false };
+                let _ = h.one(&h.ps, &attr, vx_request_bytes("GET", "/machine?comp=goalstate", &hdrs(dest.0), &ReqBody::None), false);
+                want.entry(*who).or_insert((0, *c, *dest)).0 += 1;
+                all += 1;
             }
         }
         let summary = h.failed_summary();
         let mut problems: Vec<String> = Vec::new();
-        for (ci, w) in want.iter() {
-            let (ip, port, elevated) = callers[*ci];
-            let got = occurrences(&summary, &vx_claims(elevated), ip, port);
-            if got != *w { problems.push(format!("caller {} -> {}:{}: {} occurrences, want {}", vx_claims(elevated).userName, ip, port, got, w)); }
+        for (who, (w, c, dest)) in want.iter() {
+            let got = occurrences(&summary, c, dest.0, dest.1);
+            if got != *w { problems.push(format!("{} ({} '{}' {} -> {}:{}): {} occurrences, want {}", who, c.userName, c.processCmdLine, c.processFullPath.to_string_lossy(), dest.0, dest.1, got, w)); }
         }
         let total: u64 = summary.iter().map(|s| s.count).sum();
-        if total != 9 { problems.push(format!("{} occurrences in total, want 9", total)); }
+        if total != all { problems.push(format!("{} occurrences in total, want {}", total, all)); }
         if !problems.is_empty() {
-            vx_fail(serde_json::json!({"property": "C11", "input": {"mode": "audit", "defaultAccess": "deny", "history": "alice->IMDS x2, root->WireServer x1, alice->IMDS x1, root->HostGAPlugin x2, root->IMDS x1, root->WireServer x2"},
-                "got": {"failed_authorization_summary": dump(&summary), "problems": problems}, "want": "3 / 3 / 2 / 1 occurrences under the four caller/destination pairs"}));
+            vx_fail(serde_json::json!({"property": "C11", "input": {"mode": "audit", "defaultAccess": "deny",
+                "history": plan.iter().map(|(who, _, d, k)| format!("{} -> {}:{} x{}", who, d.0, d.1, k)).collect::<Vec<_>>()},
+                "got": {"failed_authorization_summary": dump(&summary), "problems": problems}, "want": "one occurrence per denial under each distinct user / process / command line / destination"}));
         }
     }
     drop(h);
